@@ -188,11 +188,11 @@ def run(ctx):
     missing = [k for k in need if not cls[k]]
     if missing:
         raise vlib.Inconclusive("VACUOUS", "the recorded histories never produced: %s" % missing)
-    acc = validate_all(ctx, lines)
-    ctx.add("traces_validated_against_impl", nhist)
-    ctx.cov["lines_accepted"] = acc
     for x in msgs[:4]:
         ctx.sample({k: v for k, v in x.items() if k != "st"})
+    ctx.add("traces_validated_against_impl", nhist)
+    acc = validate_all(ctx, lines)
+    ctx.cov["lines_accepted"] = acc
     if not quick:
         # the binding, demonstrated once: one corrupted counter makes TLC reject the trace
         bad = json.loads(json.dumps(lines[:12]))
